@@ -507,6 +507,12 @@ class Fn:
                 return ('str', op['str'])
             if 'val' in op:
                 return ('int', int(op['val']), op['ty'])
+            # a promoted string literal (`x != "_"` compares with a &&str promoted by the compiler): show the literal
+            m_ = re.search(r'::promoted\[(\d+)\]$', op.get('text', ''))
+            if m_ and op['ty'].endswith('str'):
+                pr = [p_ for p_ in (self.raw.get('promoted') or []) if p_['i'] == int(m_.group(1))]
+                if pr and len(pr[0].get('strs', [])) == 1:
+                    return ('str', pr[0]['strs'][0])
             return ('const', op.get('text', ''), op['ty'])
         if k in ('Copy', 'Move'):
             return self.expr_of_place(op['place'], depth + 1, seen)
@@ -1473,6 +1479,13 @@ def value_table(fn, e, depth=0):
         for x in cf.exits():
             cs = [(subst_closure(cf, expand(cf, c), [], e0[2][1][2]), lab) for b, c, lab in _edge_conds(cf, x['block'])]
             rows.append(([(('discr', X), 'None')] + cs, subst_closure(cf, expand(cf, x['expr']), [], e0[2][1][2])))
+        return rows
+    if e0[0] == 'call' and re.search(r'bool>?::then$', e0[1]) and len(e0[2]) == 2 and e0[2][1][0] == 'closure' and e0[2][1][1] in P.fns:
+        cf = P.fns[e0[2][1][1]]
+        rows = [([(e0[2][0], False)], ('agg', 'std::option::Option::None', []))]
+        for x in cf.exits():
+            cs = [(subst_closure(cf, expand(cf, c), [], e0[2][1][2]), lab) for b, c, lab in _edge_conds(cf, x['block'])]
+            rows.append(([(e0[2][0], True)] + cs, ('agg', 'std::option::Option::Some', [('0', subst_closure(cf, expand(cf, x['expr']), [], e0[2][1][2]))])))
         return rows
     if e0[0] == 'call' and re.search(r'Option::<T>::unwrap_or$', e0[1]) and len(e0[2]) == 2:
         X = e0[2][0]
